@@ -20,6 +20,8 @@ LRU_CONFIGS = {
     "8": {"maxsize": 8, "typed": True},
     "inf": {"maxsize": None, "typed": True},
     "off": "off",
+    # library defaults plus re-evaluation on every hit (sim/shadow.py)
+    "shadow": "shadow",
 }
 
 _STATE = {"src": None, "lru": None, "out": None, "machines": {}}
@@ -55,6 +57,9 @@ def setup(src, lru, silence=True):
         spec.loader.exec_module(mod)
         if cfg == "off":
             mod.Cached.cache_enable = False
+        elif cfg == "shadow":
+            from . import shadow
+            shadow.install(mod)
         else:
             mod.Cached.lru_params = dict(cfg)
         sys.modules["pyunicorn.core.cache"] = mod
@@ -105,9 +110,16 @@ def execute(pid, run, wall_cap=None):
     cap = wall_cap or getattr(m, "run_wall_cap", 30.0)
     t0 = time.time()
     signal.setitimer(signal.ITIMER_REAL, cap)
+    generic = getattr(m, "shadow_generic", False) and \
+        LRU_CONFIGS.get(_STATE["lru"]) == "shadow"
+    if generic:
+        from . import shadow
+        shadow.reset()
     try:
         res = m.execute(run)
         res.setdefault("status", "ok")
+        if generic:
+            _shadow_generic(pid, res)
     except RunTimeout:
         res = {"status": "harness", "error": f"run exceeded {cap}s wall cap",
                "violations": [], "trace": []}
@@ -122,6 +134,28 @@ def execute(pid, run, wall_cap=None):
     res["wall"] = time.time() - t0
     res["digest"] = run_digest(run, res.get("trace", []))
     return res
+
+
+def _shadow_generic(pid, res):
+    """Machines without their own handling: a memoised value served although
+    re-evaluation on the object as it is gives another one (checked again at
+    the end of the run) is a violation of the property's "follows every
+    change" / "does not degrade" clause."""
+    from . import shadow
+    for e in shadow.drain():
+        sig = f"{pid}|{e['cls']}|shadow-{e['kind']}|{e['method']}"
+        if not any(v["sig"] == sig for v in res["violations"]):
+            res["violations"].append({
+                "sig": sig, "victim": f"{e['cls']}|shadow:{e['method']}",
+                "detail": f"the memoised {e['qual']}{e['args']} was served "
+                          f"although re-evaluating it on the object as it is "
+                          f"gives another value ({e['why']}); {e['kind']}"})
+    h, nd = shadow.take_counts()
+    pr = res.setdefault("probes", {})
+    pr["shadow_hits_reevaluated"] = pr.get("shadow_hits_reevaluated", 0) + h
+    if nd:
+        pr["shadow_nondeterministic_method"] = nd
+    shadow.reset()
 
 
 def run_chunk(pid, seed, tier, lru, indices, keep_runs=False):
